@@ -266,7 +266,8 @@ def classify(case, impl, model, disc):
 LEVEL_TEXT = ("Proof: C03_new_cmp_total_order (the GENERATED _less_than is, on endpoints of positive-duration events with distinct ids, exactly the lexicographic key "
               "order: irreflexive, transitive, total), C03_enclosure_is_key_order, C03_no_crossing, C03_parent_innermost (the stack machine over the key-sorted "
               "endpoints of a properly nested family gives every event its innermost encloser), C03_each_once; zero-duration events: C03_zero_refuted exhibits the "
-              "cyclic triple of the generated comparator. Correspondence of both builders with the model and the property evaluated on every implementation output.")
+              "cyclic triple of the generated comparator. Correspondence of both builders with the model and the property evaluated on every implementation output."
+              " C03_resolution_independent: multiplying all times by k > 0 changes neither builder's parent relation (proved over the generated comparators).")
 LEVEL_NOTE = ("Translator (fail-closed) for _less_than, _cmp_events_with_zero_duration, compare_events; hand model of the endpoint array, the sort driver and the "
               "stack machine. Python's sorted() is trusted to return the unique sorted sequence of a strict total order.")
 TECHNIQUE = "Coq proof over comparators regenerated from the source (order theory + stack-machine invariant) + differential correspondence + verified property check on outputs"
